@@ -1,6 +1,7 @@
 package fmtin
 
 import (
+	"bytes"
 	goast "go/ast"
 	gotoken "go/token"
 
@@ -39,6 +40,73 @@ func Shapes(f *ast.File, fset *gotoken.FileSet, src []byte) []string {
 					commentCstr = true
 				}
 				break
+			}
+		}
+	}
+	var keywordIdent bool
+	var commentInOverload, envSplit, lambdaArgNewline, commentInMatrix, importRparen, parenLambdaBlock bool
+	commentIn := func(lo, hi gotoken.Pos) bool {
+		for _, g := range f.Comments {
+			if g.Pos() > lo && g.Pos() < hi {
+				return true
+			}
+		}
+		return false
+	}
+	off := func(p gotoken.Pos) int { return fset.Position(p).Offset }
+	// two trailing comments a few lines apart, the code between them running over a line break:
+	// their alignment depends on where the source broke its lines
+	trailingPair := false
+	{
+		type tc struct {
+			line   int
+			closes bool
+		}
+		var tcs []tc
+		lines := bytes.Split(src, []byte("\n"))
+		tokLine := make([]int, len(toks)) // line of each token's first byte
+		balance := map[int]int{}          // line → closing minus opening brackets
+		ln, at := 0, 0
+		for i, t := range toks {
+			for at < t.Off && at < len(src) {
+				if src[at] == '\n' {
+					ln++
+				}
+				at++
+			}
+			tokLine[i] = ln
+			switch t.Tok {
+			case token.LPAREN, token.LBRACK, token.LBRACE:
+				balance[ln]--
+			case token.RPAREN, token.RBRACK, token.RBRACE:
+				balance[ln]++
+			}
+		}
+		for i, t := range toks {
+			if t.Tok != token.COMMENT {
+				continue
+			}
+			j := i - 1
+			for j >= 0 && toks[j].Auto {
+				j--
+			}
+			if j < 0 || toks[j].Tok == token.COMMENT || tokLine[j] != tokLine[i] {
+				continue
+			}
+			tcs = append(tcs, tc{tokLine[i], balance[tokLine[i]] > 0})
+		}
+		for i := 1; i < len(tcs); i++ {
+			a, b := tcs[i-1], tcs[i]
+			if d := b.line - a.line; d >= 1 && d <= 4 {
+				blank := false
+				for l := a.line + 1; l < b.line && l < len(lines); l++ {
+					if len(bytes.TrimSpace(lines[l])) == 0 {
+						blank = true
+					}
+				}
+				if !blank && (d > 1 || a.closes || b.closes) {
+					trailingPair = true
+				}
 			}
 		}
 	}
@@ -122,9 +190,25 @@ func Shapes(f *ast.File, fset *gotoken.FileSet, src []byte) []string {
 			if v.IsCommand() && len(v.Args) > 0 && line(v.Args[0].Pos()) > line(v.Fun.End()) {
 				cmdNextLine = true
 			}
+			if n := len(v.Args); n > 0 && !v.IsCommand() && v.Rparen.IsValid() {
+				switch v.Args[n-1].(type) {
+				case *ast.LambdaExpr, *ast.LambdaExpr2:
+					if a, b := off(v.Args[n-1].Pos()), off(v.Rparen); a < b && b <= len(src) && line(v.Rparen) > line(v.Args[n-1].Pos()) {
+						// a line break between the lambda and the closing parenthesis
+						if i := lastNonSpace(src, b); i >= 0 && (src[i] == ',' || src[i] != '}') {
+							lambdaArgNewline = true
+						}
+					}
+				}
+			}
 		case *ast.LambdaExpr2:
 			if v.Body != nil && len(v.Body.List) > 0 && line(v.Body.Lbrace) == line(v.Body.Rbrace) {
 				onelineLambda = true
+			}
+		case *ast.Ident:
+			switch v.Name {
+			case "break", "continue", "goto", "fallthrough":
+				keywordIdent = true
 			}
 		case *ast.ExprStmt:
 			if id, ok := v.X.(*ast.Ident); ok {
@@ -137,19 +221,60 @@ func Shapes(f *ast.File, fset *gotoken.FileSet, src []byte) []string {
 			if v.Tag != nil {
 				classTag = true
 			}
+		case *ast.OverloadFuncDecl:
+			if commentIn(v.Lparen, v.Rparen) {
+				commentInOverload = true
+			}
+		case *ast.MatrixLit:
+			if commentIn(v.Lbrack, v.Rbrack) {
+				commentInMatrix = true
+			}
+		case *ast.GenDecl:
+			if v.Tok == token.IMPORT && v.Rparen.IsValid() && len(v.Specs) > 0 && line(v.Rparen) == line(v.Specs[len(v.Specs)-1].Pos()) && line(v.Lparen) != line(v.Rparen) {
+				importRparen = true
+			}
+		case *ast.ParenExpr:
+			if _, ok := v.X.(*ast.LambdaExpr2); ok {
+				parenLambdaBlock = true
+			}
+		case *ast.EnvExpr:
+			if v.Name != nil && line(v.TokPos) != line(v.Name.Pos()) {
+				envSplit = true
+			}
 		}
 		return true
 	})
+	// shapes without a proposed repair first: once the repaired ones are flipped to "fixed", a source
+	// that shows both kinds still fails under a listed class
+	add(ellipsisInHeader, "elem-ellipsis-in-header")
+	add(commentInOverload, "comment-in-overload-decl")
+	add(commentInMatrix, "comment-in-matrix-lit")
+	add(envSplit, "env-expr-split-over-lines")
+	add(braceInHeader, "brace-in-header")
+	add(guardInParen, "type-guard-in-paren")
+	add(cmdNextLine, "command-arg-on-next-line")
+	add(parenLambdaBlock, "paren-lambda-block")
+	add(lambdaArgNewline, "lambda-last-arg-before-newline")
+	add(onelineLambda, "oneline-lambda-block")
+	add(keywordIdent && !branchIdent, "branch-keyword-as-identifier")
+	add(importRparen, "import-rparen-on-spec-line")
+	add(trailingPair, "trailing-comments-around-line-break")
 	add(bareSharp, "bare-sharp-comment")
 	add(sharp, "sharp-comment")
 	add(commentCstr, "comment-before-cstring")
-	add(ellipsisInHeader, "elem-ellipsis-in-header")
-	add(braceInHeader, "brace-in-header")
-	add(guardInParen, "type-guard-in-paren")
 	add(emptyCmd, "empty-command-call")
 	add(branchIdent, "branch-keyword-before-rbrace")
 	add(classTag, "class-field-tag")
-	add(cmdNextLine, "command-arg-on-next-line")
-	add(onelineLambda, "oneline-lambda-block")
 	return out
+}
+
+func lastNonSpace(src []byte, before int) int {
+	for i := before - 1; i >= 0; i-- {
+		switch src[i] {
+		case ' ', '\t', '\n', '\r':
+			continue
+		}
+		return i
+	}
+	return -1
 }
